@@ -123,3 +123,23 @@ pool18 = elfi.OutputPool(['s1', 's2']); r18 = elfi.Rejection(ad18, batch_size=20
 allS = np.column_stack([np.concatenate([pool18.get_batch(i)[k] for i in range(5)]) for k in ('s1', 's2')]); sc = allS.std(0)
 rows = np.column_stack([r18.outputs['s1'], r18.outputs['s2']]); mine = np.sqrt((((rows - np.array([1., 10.])) / sc) ** 2).sum(1)); adv = np.ravel(r18.outputs['ad'])
 report('F18', np.allclose(np.sort(adv), np.sort(mine)) and not np.allclose(adv, mine), f"returned discrepancies {np.round(adv[:4], 3)}… vs distances of the returned rows {np.round(mine[:4], 3)}… (same multiset, wrong rows, not ascending)")
+
+# F4 (behavioural): _get_mh_ratio on a constructed state vs the change-of-variables formula
+bsl = BSL.__new__(BSL); bnd4 = np.array([[0., 1.]])
+bsl.state = {'n_samples': 1, 'logposterior': np.array([-1.3, -0.9]), 'params': np.array([[0.3], [0.6]])}; bsl.logit_transform_bound = bnd4
+logJ = lambda th: np.log(th * (1 - th))[0]          # log |d theta / d theta_tilde| for the (0,1) logit
+expect = np.exp(logJ(np.array([0.6])) - logJ(np.array([0.3])) + (-0.9) - (-1.3)); got = float(bsl._get_mh_ratio())
+report('F4b', not np.isclose(got, expect), f"_get_mh_ratio={got:.4f}, change-of-variables formula={expect:.4f}")
+
+# F13: stale RBF cache after update() (needs the F12 scalar extraction repaired, emulated in-process)
+def _fixed_cache(self):
+    self._rbf_var = float(np.ravel(self._gp.kern.rbf.variance)[0]); self._rbf_factor = -0.5 / float(np.ravel(self._gp.kern.rbf.lengthscale)[0]) ** 2
+    self._rbf_bias = float(self._gp.kern.bias.K(self._gp.X)[0, 0]); self._rbf_noisevar = float(self._gp.likelihood.variance[0])
+    self._rbf_woodbury = self._gp.posterior.woodbury_vector; self._rbf_woodbury_inv = self._gp.posterior.woodbury_inv; self._rbf_woodbury_chol = self._gp.posterior.woodbury_chol
+    self._rbf_x2sum = np.sum(self._gp.X ** 2., 1)[None, :]; self._rbf_is_cached = True
+import copy
+G13 = type('G13', (GPyRegression,), {'_cache_RBF_kernel': _fixed_cache})
+g13 = G13(['a'], bounds={'a': (0, 1)}); X13 = np.random.RandomState(0).rand(6, 1); g13.update(X13, np.sin(5 * X13) + 1.5)
+g13.is_sampling = True; g13.predict(np.array([[.37]])); g13.is_sampling = False; g13.update(np.array([[.9]]), np.array([[4.0]])); g13.is_sampling = True
+try: g13.predict(np.array([[.37]])); report('F13', False)
+except ValueError as e: report('F13', True, 'fast path after update(): ' + str(e)[:60])
